@@ -776,6 +776,19 @@ package tengo
 //@                   && callarg(storeCompiledModule, 1) == modulePath && callarg(storeCompiledModule, 2) == module
 //@   ensures top{C13}: c.parent == nil ==> !calledfn(storeCompiledModule)
 
+// import cycles: a module that imports itself, directly or through the chain of importing compilers, is
+// rejected; a path that is on no importing compiler is accepted (the answer is the parent's when there is one)
+//@ func (*Compiler).checkCyclicImports
+//@   props C13
+// every compiler of the chain was created with its source file
+//@   assumes has_file: c.file != nil
+//@   assigns nothing
+//@   ensures self_import{C13}: c.modulePath == modulePath ==> result != nil
+//@   ensures asks_parent{C13}: c.modulePath != modulePath && c.parent != nil ==> calledfn(checkCyclicImports)
+//@                   && callarg(checkCyclicImports, 0) == c.parent && callarg(checkCyclicImports, 2) == modulePath
+//@                   && result == staticresult(checkCyclicImports, 0)
+//@   ensures outermost{C13}: c.modulePath != modulePath && c.parent == nil ==> result == nil
+
 //@ func (*Compiler).loadCompiledModule
 //@   props C13
 //@   assigns nothing
